@@ -309,6 +309,10 @@ def run(ctx):
         mult = 5  # something no longer checks: search harder for a concrete failing input
     run_oracle(ctx, "oracle:general", gen_jobs(ctx, "og", ctx.budget(350, 3500) * mult, {}, 5))
     run_oracle(ctx, "oracle:name-backtrack", name_backtrack_jobs(ctx, ctx.budget(400, 4000) * mult))
+    from . import c03
+    # the memo-aliasing templates of C03 (names through a shared entry, messages rewritten by set_name'd wrappers /
+    # MatchFirst, trial parses observed by a call_during_try condition) are hazards of the packrat cache as well
+    run_oracle(ctx, "oracle:aliasing-templates", c03.template_jobs(ctx, ctx.budget(450, 4500) * mult))
     run_oracle(ctx, "oracle:preparse-key", prekey_jobs(ctx, ctx.budget(300, 3000) * mult))
     run_oracle(ctx, "oracle:stale-cache-history", stale_jobs(ctx, ctx.budget(60, 600) * mult), job_fn=stale_job)
     run_oracle(ctx, "oracle:names", gen_jobs(ctx, "on", ctx.budget(700, 7000) * mult, dict(names=0.45, p_reuse=0.7), 5))
